@@ -240,7 +240,36 @@ def r5_buffered_writes_are_flushed(cx):
         raise AnchorLost("creator BufWriter sites: %d" % n)
 
 
+def r6_thread_errors_reach_finalize(cx):
+    """creation must fail when a worker or the writer thread failed (contents are read and compressed in the workers):
+    the io::Result carried by every JoinHandle::join in the creator is propagated (`?` / returned), never fed to a
+    combinator that can drop its error (or, or_else, ok, unwrap_or*, is_ok, is_err, err, map_or*)"""
+    F = cx.F
+    n = 0
+    drop = r"std::result::Result::<.*>::(or|or_else|ok|unwrap_or|unwrap_or_default|unwrap_or_else|is_ok|is_err|err|map_or|map_or_else)(::<.*>)?$"
+    for f in F.live_fns:
+        if "blocks" not in f or not re.search(r"creator::", f["name"]):
+            continue
+        b = F.body(f)
+        joins = b.calls(r"JoinHandle::<.*>::join$")
+        if not joins:
+            continue
+        jb = {i for i, _ in joins}
+        short = ((f.get("impl_self") or "").split("<")[0].split("::")[-1] + "." + f["item_name"]) if f.get("impl_self") and f.get("item_name") else ".".join(f["name"].split("::")[-2:])
+        lost = []
+        for i, t in b.calls(drop):
+            if any(x[0] == "call" and x[1] in jb for a in t["args"] for x in b.origins(a)):
+                lost.append("%s at line %s" % (callee_str(t).split("::")[-1], t.get("ln")))
+        used = all(any(("call", j) in b.origins(t["args"][0]) for _, t in b.calls(r"Try>::branch$")) or ("call", j) in b.origins(0) for j in jb)
+        n += 1
+        cx.ob("R6", "R6/%s/join-results-propagated" % short, not lost and used, f,
+              "%d JoinHandle::join result(s): each reaches `?` or the return value, none goes through an error-dropping combinator (%s)" % (len(joins), lost or "none"))
+    if n < 1:
+        raise AnchorLost("no JoinHandle::join in the creator")
+
+
 RULES = [
+    ("R6", r6_thread_errors_reach_finalize, 1),
     ("R5", r5_buffered_writes_are_flushed, 3),
     ("R1", r1_who_may, 6),
     ("R2", r2_temp_dir, 2),
